@@ -262,7 +262,10 @@ func modePairs(r *vlib.Run) {
 			evals++
 			offered[pi] = c.n > 0
 			if c.n > 1 {
-				rawMulti++ // diagnostic only: one node reached twice by a plain Update
+				// One registration, one pushed item: a second offer is a second
+				// delivery of the same notification whatever entry point is used.
+				rawMulti++
+				bad("plain-update-offered-twice", fmt.Sprintf("Update: a client with a single registration was offered the same item %d times", c.n), p)
 			}
 			if v := judge(c.n, want, false, false); v != nil {
 				bad(v.sig, "Update: "+v.what, p)
@@ -334,7 +337,7 @@ func modePairs(r *vlib.Run) {
 		}
 		// (4, small scope) removal on a shared node: bystander unaffected,
 		// remove idempotent, emptied trie accepts the query again.
-		probe := func(stage string, wantC, wantBy bool) {
+		probe := func(stage string, wantC, wantBy, pairCtx bool) {
 			for _, p := range U {
 				c.n, by.n = 0, 0
 				if pan := guard(func() { m.Update(1, cp(p)) }); pan != "" {
@@ -344,6 +347,9 @@ func modePairs(r *vlib.Run) {
 				evals++
 				comp := model.Compat(q, p)
 				if v := judge(c.n, wantC && comp, false, !wantC && comp); v != nil {
+					if v.sig == "offer-missed" && pairCtx {
+						v.sig = "offer-missed-pair-removed-elsewhere"
+					}
 					bad(v.sig, stage+": "+v.what, p)
 				}
 				if v := judge(by.n, wantBy && comp, false, !wantBy && comp); v != nil {
@@ -351,24 +357,31 @@ func modePairs(r *vlib.Run) {
 				}
 			}
 		}
+		var rm2, rm3 func()
 		steps := []struct {
 			name       string
 			f          func()
 			wantC, wBy bool
+			pairCtx    bool // a live registration of the pair coexists with removed ones
 		}{
-			{"after remove of the first client", func() { rm() }, false, true},
-			{"after a second call of the same remove function", func() { rm() }, false, true},
-			{"after remove of both clients", func() { rmBy() }, false, false},
-			{"after repeated removes on the emptied trie", func() { rm(); rmBy() }, false, false},
-			{"after registering the query again on the emptied trie", func() { rm = m.AddQuery(cp(q), c) }, true, false},
-			{"after removing it again", func() { rm() }, false, false},
+			{"after remove of the first client", func() { rm() }, false, true, false},
+			{"after a second call of the same remove function", func() { rm() }, false, true, false},
+			{"after remove of both clients", func() { rmBy() }, false, false, false},
+			{"after repeated removes on the emptied trie", func() { rm(); rmBy() }, false, false, false},
+			{"after registering the query again on the emptied trie", func() { rm2 = m.AddQuery(cp(q), c) }, true, false, false},
+			{"after the stale remove function of the first registration was called again", func() { rm() }, true, false, true},
+			{"after registering the same query a second time while it is registered", func() { rm3 = m.AddQuery(cp(q), c) }, true, false, true},
+			{"after removing one of the two live registrations of the query", func() { rm2() }, true, false, true},
+			{"after a second call of that remove function (the other registration is still live)", func() { rm2(); rm() }, true, false, true},
+			{"after removing the last live registration", func() { rm3() }, false, false, false},
+			{"after calling every remove function once more", func() { rm(); rm2(); rm3(); rmBy() }, false, false, false},
 		}
 		for _, st := range steps {
 			if pan := guard(st.f); pan != "" {
 				bad("panic:remove", st.name+": "+pan, nil)
 				break
 			}
-			probe(st.name, st.wantC, st.wBy)
+			probe(st.name, st.wantC, st.wBy, st.pairCtx)
 		}
 	}
 	r.Eval(int(evals))
@@ -376,7 +389,7 @@ func modePairs(r *vlib.Run) {
 	r.Count("pairs_incompatible", notOfferedN)
 	r.Count("pairs_query_hits", hits)
 	r.Count("pairs_query_hits_model_matchq", hitsModel)
-	r.Count("pairs_plain_update_reached_node_twice_diagnostic", rawMulti)
+	r.Count("pairs_plain_update_offered_twice", rawMulti)
 }
 
 // ---------------------------------------------------------------- mode fulltrie
@@ -655,17 +668,25 @@ func modeNotif(r *vlib.Run) {
 						return
 					}
 					evals++
-					wantA, removed := false, false
+					wantA, removed, pairRemovedElsewhere := false, false, false
 					for j, q := range qs {
 						if model.Compat(q, p) {
 							if live[j] {
 								wantA = true
+								for k := range qs {
+									if !live[k] && model.Key(qs[k]) == model.Key(q) {
+										pairRemovedElsewhere = true
+									}
+								}
 							} else {
 								removed = true
 							}
 						}
 					}
 					if v := judge(A.n, wantA, false, removed); v != nil {
+						if v.sig == "offer-missed" && pairRemovedElsewhere {
+							v.sig = "offer-missed-pair-removed-elsewhere"
+						}
 						bad(v.sig, fmt.Sprintf("after removing path %s (call %d of its remove function), update at %s: %s", ps(qs[i]), rep+1, ps(p), v.what), nil)
 					}
 					if v := judge(B.n, anyCompat(qs, [][]string{p}), false, false); v != nil {
@@ -692,7 +713,8 @@ func modeNotif(r *vlib.Run) {
 		}
 	}
 	for i := range Q {
-		for j := i + 1; j < len(Q); j++ {
+		// j == i: the same path registered twice by the same client
+		for j := i; j < len(Q); j++ {
 			si++
 			if r.Mine(si) {
 				runSet(si, [][]string{Q[i], Q[j]})
@@ -869,10 +891,12 @@ func (o hop) String() string {
 	return fmt.Sprintf("%s(u=%s d=%s)", o.Via, pss(o.Ups), pss(o.Dels))
 }
 
-// genHistory draws a history; the model registry is simulated while drawing so
-// that the ambiguous cases (registering a (client, path) pair that is still
-// registered; calling a stale remove function after the pair was registered
-// again) are never produced.
+// genHistory draws a history. Every sub op is one registration (#handle) with
+// its own remove function; an unsub op calls the remove function of a handle.
+// Registrations of a (client, path) pair that is still registered, removal of
+// one of several registrations of a pair, and remove functions called again
+// after the pair was registered anew are drawn on purpose: the statement
+// quantifies over all sequences.
 func genHistory(rng *rand.Rand, steps int) (ops []hop, nc int) {
 	nc = 2 + rng.Intn(4)
 	alpha := []string{"a", "b"}
@@ -888,11 +912,9 @@ func genHistory(rng *rand.Rand, steps int) (ops []hop, nc int) {
 	type handle struct {
 		client int
 		q      []string
-		latest bool
+		live   bool
 	}
 	var handles []handle
-	reg := map[string]bool{}
-	rk := func(c int, q []string) string { return fmt.Sprintf("%d|%s", c, model.Key(q)) }
 	vias := []string{"update", "once", "notif"}
 	probe := func(p []string) hop {
 		via := vias[rng.Intn(3)]
@@ -919,47 +941,49 @@ func genHistory(rng *rand.Rand, steps int) (ops []hop, nc int) {
 		}
 		return o
 	}
-	sub := func(c int, q []string) bool {
-		if reg[rk(c, q)] {
-			return false
-		}
-		for i := range handles {
-			if handles[i].client == c && model.Key(handles[i].q) == model.Key(q) {
-				handles[i].latest = false
-			}
-		}
+	sub := func(c int, q []string) {
 		handles = append(handles, handle{c, q, true})
-		reg[rk(c, q)] = true
 		ops = append(ops, hop{Kind: "sub", Client: c, Query: q, Handle: len(handles) - 1})
-		return true
 	}
 	unsub := func(h int) {
-		reg[rk(handles[h].client, handles[h].q)] = false
+		handles[h].live = false
 		ops = append(ops, hop{Kind: "unsub", Client: handles[h].client, Query: handles[h].q, Handle: h})
 	}
 	for len(ops) < steps {
 		switch x := rng.Intn(10); {
 		case x < 4:
+			c := rng.Intn(nc)
 			var q []string
-			if rng.Intn(4) == 0 {
+			switch y := rng.Intn(10); {
+			case y < 4 && len(handles) > 0:
+				// the pair of an earlier registration, still live or removed
+				h := handles[rng.Intn(len(handles))]
+				c, q = h.client, h.q
+			case y < 6:
 				q = randPath(rng, alpha, 0.3, maxLen)
-			} else {
+			default:
 				q = pool[rng.Intn(len(pool))]
 			}
-			if sub(rng.Intn(nc), q) {
-				ops = append(ops, probe(q))
-			}
+			sub(c, q)
+			ops = append(ops, probe(q))
 		case x < 7:
-			var cand []int
-			for i, h := range handles {
-				if h.latest {
-					cand = append(cand, i)
-				}
-			}
-			if len(cand) == 0 {
+			if len(handles) == 0 {
 				continue
 			}
-			h := cand[rng.Intn(len(cand))]
+			// any handle: live, already removed, or superseded by a newer
+			// registration of its pair; live ones preferred
+			h := rng.Intn(len(handles))
+			if rng.Intn(10) < 6 {
+				var cand []int
+				for i, g := range handles {
+					if g.live {
+						cand = append(cand, i)
+					}
+				}
+				if len(cand) > 0 {
+					h = cand[rng.Intn(len(cand))]
+				}
+			}
 			unsub(h)
 			ops = append(ops, probe(handles[h].q))
 		default:
@@ -970,13 +994,12 @@ func genHistory(rng *rand.Rand, steps int) (ops []hop, nc int) {
 			}
 		}
 	}
-	// Epilogue: remove everything (twice), nothing may be offered; then the
-	// emptied trie accepts the first query again.
+	// Epilogue: every remove function is called (twice), nothing may be
+	// offered; then the emptied trie accepts the first query again, and the
+	// stale remove functions of that pair must not undo the new registration.
 	for rep := 0; rep < 2; rep++ {
-		for i, h := range handles {
-			if h.latest {
-				unsub(i)
-			}
+		for i := range handles {
+			unsub(i)
 		}
 	}
 	for _, q := range pool {
@@ -985,10 +1008,26 @@ func genHistory(rng *rand.Rand, steps int) (ops []hop, nc int) {
 	ops = append(ops, hop{Kind: "probe", Via: "once", Ups: [][]string{{}}}, hop{Kind: "probe", Via: "update", Ups: [][]string{{"*", "*", "*", "*"}}})
 	if len(handles) > 0 {
 		h := handles[0]
+		n := len(handles)
 		sub(h.client, h.q)
 		ops = append(ops, hop{Kind: "probe", Via: "update", Ups: [][]string{h.q}}, hop{Kind: "probe", Via: "notif", Ups: [][]string{h.q}, Dels: [][]string{h.q}})
+		for i := 0; i < n; i++ {
+			if handles[i].client == h.client && model.Key(handles[i].q) == model.Key(h.q) {
+				unsub(i)
+			}
+		}
+		ops = append(ops, hop{Kind: "probe", Via: "once", Ups: [][]string{h.q}})
 	}
 	return ops, nc
+}
+
+// regn is one registration of the model registry: live from the return of its
+// AddQuery until the first call of its own remove function.
+type regn struct {
+	client int
+	q      []string
+	key    string
+	live   bool
 }
 
 func runHistory(ops []hop, nc int) (v *verdict, at int, feat map[string]bool) {
@@ -999,11 +1038,8 @@ func runHistory(ops []hop, nc int) (v *verdict, at int, feat map[string]bool) {
 		clients[i] = &cli{id: i}
 	}
 	removes := map[int]func(){}
-	reg := make([]map[string]bool, nc)     // model registry: client -> registered paths
-	removed := make([]map[string]bool, nc) // paths a client once had and removed
-	for i := range reg {
-		reg[i], removed[i] = map[string]bool{}, map[string]bool{}
-	}
+	regs := map[int]*regn{}
+	var order []int
 	scratch := make([]string, 0, 8)
 	for i, o := range ops {
 		at = i
@@ -1014,27 +1050,52 @@ func runHistory(ops []hop, nc int) (v *verdict, at int, feat map[string]bool) {
 				return &verdict{"panic:addquery", pan}, i, feat
 			}
 			k := model.Key(o.Query)
-			if removed[o.Client][k] {
+			dupLive, hadDead := false, false
+			for _, h := range order {
+				if g := regs[h]; g.client == o.Client && g.key == k {
+					if g.live {
+						dupLive = true
+					} else {
+						hadDead = true
+					}
+				}
+			}
+			if dupLive {
+				feat["dup-live"] = true
+			} else if hadDead {
 				feat["readd"] = true
 			}
-			reg[o.Client][k] = true
-			delete(removed[o.Client], k)
+			regs[o.Handle] = &regn{client: o.Client, q: o.Query, key: k, live: true}
+			order = append(order, o.Handle)
 		case "unsub":
 			if pan := guard(removes[o.Handle]); pan != "" {
 				return &verdict{"panic:remove", pan}, i, feat
 			}
-			k := model.Key(o.Query)
-			if !reg[o.Client][k] {
-				feat["remove-again"] = true
-			} else {
-				for c := range reg {
-					if c != o.Client && reg[c][k] {
-						feat["remove-shared"] = true
+			rg := regs[o.Handle]
+			pairLiveElsewhere, sharedLive := false, false
+			for _, h := range order {
+				if g := regs[h]; h != o.Handle && g.live && g.key == rg.key {
+					if g.client == rg.client {
+						pairLiveElsewhere = true
+					} else {
+						sharedLive = true
 					}
 				}
 			}
-			delete(reg[o.Client], k)
-			removed[o.Client][k] = true
+			if rg.live {
+				if pairLiveElsewhere {
+					feat["remove-one-of-several"] = true
+				}
+				if sharedLive {
+					feat["remove-shared"] = true
+				}
+				rg.live = false
+			} else {
+				feat["remove-again"] = true
+				if pairLiveElsewhere {
+					feat["stale-remove-pair-live"] = true
+				}
+			}
 		case "probe":
 			all := append(append([][]string{}, o.Ups...), o.Dels...)
 			for _, c := range clients {
@@ -1059,24 +1120,37 @@ func runHistory(ops []hop, nc int) (v *verdict, at int, feat map[string]bool) {
 				return &verdict{"panic:" + o.Via, pan}, i, feat
 			}
 			for ci, c := range clients {
-				want, wasRemoved := false, false
-				for k := range reg[ci] {
-					if anyCompat([][]string{model.Unkey(k)}, all) {
-						want = true
+				// Offered iff at least one of the client's LIVE registrations agrees.
+				want, wasRemoved, pairRemovedElsewhere := false, false, false
+				for _, h := range order {
+					g := regs[h]
+					if g.client != ci || !anyCompat([][]string{g.q}, all) {
+						continue
 					}
-				}
-				for k := range removed[ci] {
-					if anyCompat([][]string{model.Unkey(k)}, all) {
+					if g.live {
+						want = true
+						for _, h2 := range order {
+							if d := regs[h2]; !d.live && d.client == ci && d.key == g.key {
+								pairRemovedElsewhere = true
+							}
+						}
+					} else {
 						wasRemoved = true
 					}
 				}
 				if v := judge(c.n, want, o.Via != "update", wasRemoved); v != nil {
-					var have []string
-					for k := range reg[ci] {
-						have = append(have, ps(model.Unkey(k)))
+					if v.sig == "offer-missed" && pairRemovedElsewhere {
+						// what fails: a live registration went away with the remove
+						// function of another registration of the same client and path
+						v.sig = "offer-missed-pair-removed-elsewhere"
 					}
-					sort.Strings(have)
-					v.what = fmt.Sprintf("client c%d (registered: %v) on %s: %s", ci, have, o.String(), v.what)
+					var have []string
+					for _, h := range order {
+						if g := regs[h]; g.client == ci && g.live {
+							have = append(have, fmt.Sprintf("#%d %s", h, ps(g.q)))
+						}
+					}
+					v.what = fmt.Sprintf("client c%d (live registrations: %v) on %s: %s", ci, have, o.String(), v.what)
 					return v, i, feat
 				}
 				if c.n > 0 {
@@ -1107,7 +1181,7 @@ func modeHistory(r *vlib.Run) {
 		for f := range feat {
 			r.Count("history_"+f, 1)
 		}
-		if feat["offered"] && feat["remove-shared"] && feat["readd"] && feat["silent-after-remove"] {
+		if feat["offered"] && feat["remove-shared"] && feat["readd"] && feat["silent-after-remove"] && feat["dup-live"] && feat["remove-one-of-several"] && feat["stale-remove-pair-live"] {
 			r.Distinct(vlib.Hash("history", strings.Join(strs, ";")))
 		}
 		if r.WantSample() && trial%211 == 0 {
@@ -1213,14 +1287,23 @@ func (q sreq) pb() *pb.SubscribeRequest {
 // the gNMI mixed-schema rules forbid (both origins, or a path origin below
 // prefix elements); such requests are not judged for the relation.
 func (q sreq) specQueries() (qs [][]string, valid bool) {
+	qs, _, valid = q.specQueriesPerSub()
+	return qs, valid
+}
+
+// specQueriesPerSub also returns, per subscription, whether its origins obey
+// the mixed-schema rules; qs holds the index paths of those that do.
+func (q sreq) specQueriesPerSub() (qs [][]string, ok []bool, valid bool) {
 	valid = true
 	pre := model.IndexPath(q.Prefix.pb(q.Target))
 	for _, s := range q.Subs {
+		ok = append(ok, true)
 		// A subscription without a path selects the prefix itself — that is what
 		// its snapshot is taken of (path.CompletePath), and "every leaf that a
 		// query for that path would return is also streamed" (D26).
 		if (q.Prefix.Origin != "" && s.Origin != "") || (s.Origin != "" && len(pre) > 0) {
 			valid = false
+			ok[len(ok)-1] = false
 			continue
 		}
 		x := []string{q.Target}
@@ -1233,7 +1316,7 @@ func (q sreq) specQueries() (qs [][]string, valid bool) {
 		x = append(x, model.IndexPath(s.pb(""))...)
 		qs = append(qs, x)
 	}
-	return qs, valid
+	return qs, ok, valid
 }
 
 type snotif struct {
@@ -1718,20 +1801,23 @@ func modeServer(r *vlib.Run) {
 					continue
 				}
 				got := offersByID(ls.st)
-				qs, valid := ls.req.specQueries()
+				qs, subOK, valid := ls.req.specQueriesPerSub()
 				// Snapshot paths of the same request, from the real CompletePath.
 				var snap [][]string
 				snapOK := true
-				for _, s := range ls.req.Subs {
+				for k, s := range ls.req.Subs {
 					fp, err := path.CompletePath(ls.req.Prefix.pb(ls.req.Target), s.pb(""))
+					// The snapshot side must accept exactly the origin combinations
+					// the mixed-schema rules allow.
+					if (err == nil) != subOK[k] {
+						r.Violation("server", trial, "server-snapshot-validity-differs", fmt.Sprintf("subscriber %d %s, path %d (%s): path.CompletePath returns error %v, the mixed-schema rules (origin in prefix or path, not both; no path origin below prefix elements) make the subscription valid=%v", si, ls.req, k, s, err, subOK[k]), witness)
+						return false
+					}
 					if err != nil {
 						snapOK = false
 						continue
 					}
 					snap = append(snap, append([]string{ls.req.Target}, fp...))
-				}
-				if valid != snapOK {
-					r.Count("server_spec_and_completepath_disagree_on_validity", 1)
 				}
 				for _, n := range batches[b] {
 					ips := n.indexPaths()
@@ -1767,6 +1853,15 @@ func modeServer(r *vlib.Run) {
 							}
 						}
 					} else {
+						// Mixed request: what its invalid paths select is not defined,
+						// but the valid ones must still be honoured.
+						if multiplicity(qs, ips) > 0 {
+							r.Count("server_mixed_request_valid_path_offered", 1)
+							if g == 0 {
+								r.Violation("server", trial, "server-offer-missed", fmt.Sprintf("%s; valid subscribed index paths of a request that also has invalid-origin paths %s: not offered although a valid subscribed path agrees with it on every common element", where, pss(qs)), witness)
+								return false
+							}
+						}
 						r.Count("server_unjudged_invalid_origin_request", 1)
 					}
 					if snapOK {
@@ -1894,16 +1989,16 @@ func body(r *vlib.Run) {
 func main() {
 	vlib.Main(&vlib.Spec{
 		ID: "C06",
-		Rule: "pairs (exhaustive): every (query, path) over {a,b,*}^<=4 (121 x 121) through the real trie via Update, UpdateOnce and single-update / single-delete UpdateNotification, plus ctree.Query containment on a tree holding the path as a leaf, plus remove / repeated remove / re-add on a node shared with a second client; a pair is distinct non-trivial when both sides are non-empty. " +
+		Rule: "pairs (exhaustive): every (query, path) over {a,b,*}^<=4 (121 x 121) through the real trie via Update, UpdateOnce and single-update / single-delete UpdateNotification, plus ctree.Query containment on a tree holding the path as a leaf, plus, on a node shared with a second client: remove, repeated remove, re-add, the stale remove function of the first registration called again, a second registration of the same (client, path) pair while it is registered, removal of one of the two, of the last; a pair is distinct non-trivial when both sides are non-empty. " +
 			"fulltrie (exhaustive): all 121 queries in one trie with two clients each, staged removals, every path. " +
-			"notif (exhaustive): every query set of size <= 2 over {a,b,*}^<=3 (thorough <=4) against every notification shape (single update/delete over ^<=3 (thorough ^<=4); ordered pairs UU/UD/DD over ^<=2; triples UUD over ^<=1; thorough also UU pairs over ^<=3; atomic containers: every prefix over ^{1,2} with 1 or 2 members over ^{1,2} (quick: the first of two members over ^1) or 3 members over ^1) through UpdateNotification with prefix splits and both path encodings; a case is distinct non-trivial when >= 2 (path, entry) combinations agree, i.e. de-duplication had something to do (quick records a 1/4, thorough a 1/64 systematic sample of them; the full number is counter notif_cases_dedup_needed). " +
-			"notifrand / history / server: seeded random; a notifrand trial counts when it had a notification needing de-duplication and one offered to nobody; a history counts when it contains an offer, a removal on a node shared with another client, a re-registration after removal and a judged silence after removal; a server trial counts when a request has >= 2 paths and at least one notification was streamed and one was not; concremove: 300 (thorough 6000) trials of concurrent dispatch and unsubscription.",
+			"notif (exhaustive): every query set of size <= 2 over {a,b,*}^<=3 (thorough <=4), including the same path registered twice by one client, each registration then removed by its own remove function, against every notification shape (single update/delete over ^<=3 (thorough ^<=4); ordered pairs UU/UD/DD over ^<=2; triples UUD over ^<=1; thorough also UU pairs over ^<=3; atomic containers: every prefix over ^{1,2} with 1 or 2 members over ^{1,2} (quick: the first of two members over ^1) or 3 members over ^1) through UpdateNotification with prefix splits and both path encodings; a case is distinct non-trivial when >= 2 (path, entry) combinations agree, i.e. de-duplication had something to do (quick records a 1/4, thorough a 1/64 systematic sample of them; the full number is counter notif_cases_dedup_needed). " +
+			"notifrand / history / server: seeded random; a notifrand trial counts when it had a notification needing de-duplication and one offered to nobody; histories register (client, path) pairs freely (also while the pair is registered) and call any remove function at any time (also again, also after the pair was registered anew); a history counts when it contains an offer, a removal on a node shared with another client, a re-registration after removal, a judged silence after removal, a registration of a pair that is still registered, the removal of one of several live registrations of a pair, and a stale remove function called while a newer registration of its pair is live; a server trial counts when a request has >= 2 paths and at least one notification was streamed and one was not; concremove: 300 (thorough 6000) trials of concurrent dispatch and unsubscription.",
 		Assumptions: []string{
-			"model.Compat (agreement on every common element, '*' on either side agrees with anything) is the relation of the statement; for a plain match.Update only 'offered or not' is judged, the number of offers only where the notification goes through UpdateOnce / UpdateNotification",
+			"model.Compat (agreement on every common element, '*' on either side agrees with anything) is the relation of the statement; for a plain match.Update 'offered or not' is judged, and at most one offer when the client has a single registration (a client registered with several agreeing paths gets one callback per path from a plain Update, which no notification path of the repository uses); at most once whatever the number of live registrations where the notification goes through UpdateOnce / UpdateNotification",
 			"an atomic notification is judged like any other: offered iff a subscribed path agrees with the full index path (prefix + member path) of at least one member update, at most once (the cache hands the whole container to the feed as one leaf)",
 			"registrations are made the way the server makes them: from a slice whose backing array the caller reuses afterwards",
-			"histories never register a (client, path) pair that is still registered and never call a stale remove function after the pair was registered again (the statement leaves both open)",
-			"server mode: requests whose origins violate the gNMI mixed-schema rules (origin in prefix and path, or path origin below prefix elements; path.CompletePath rejects them) are only judged for at-most-once delivery; the target-delete shape is kept out of the workload (C14); 'offered' is observed as responses sent on the in-memory stream (1 + duplicates), a sentinel notification per target is the barrier; the 90 s watchdog only yields inconclusive",
+			"per-registration model: every AddQuery is one registration, live from the return of AddQuery until the FIRST call of its own remove function; a client is offered a path iff at least one of ITS live registrations agrees with it (D32)",
+			"server mode: requests whose origins violate the gNMI mixed-schema rules (origin in prefix and path, or path origin below prefix elements; path.CompletePath must reject exactly these, judged per subscription) are judged for at-most-once delivery and for missed offers on their valid paths only (what an invalid path selects is undefined); the target-delete shape is kept out of the workload (C14); 'offered' is observed as responses sent on the in-memory stream (1 + duplicates), a sentinel notification per target is the barrier; the 90 s watchdog only yields inconclusive",
 			"the end-of-subscription census reads the server's trie by read-only reflection (any map keyed by match.Client reachable from the *match.Match field); counters server_census_available / _unavailable say whether it was available; the same defect class is observed behaviourally at the match level (modes pairs, notif, history: offer-after-remove)",
 			"modes pairs/fulltrie/notif/history run on a single goroutine; mode concremove runs 2-4 dispatching goroutines while clients unsubscribe and judges, on ticks of one atomic counter, that no callback of a client BEGINS after its remove function has returned and that a bystander with the same paths is still offered; the race detector is not used",
 		},
